@@ -6,6 +6,10 @@ package sim
 import (
 	"bytes"
 	"fmt"
+	"os"
+	"strconv"
+	"sync"
+	"sync/atomic"
 	"math/rand"
 	"sort"
 	"time"
@@ -57,6 +61,12 @@ type World struct {
 	// activity counters for fixpoint detection
 	podRSWrites int
 	faultsSuspended int
+	// N mode
+	hookMu     sync.Mutex
+	nestDepth  int
+	nesting    int32
+	NestedProb float64
+	nestedAct  func(outer string)
 	// LastErr[ctl ns/name] = error text of the last reconcile of that object ("" when none)
 	LastErr map[string]string
 }
@@ -66,6 +76,9 @@ func NewWorld(ctx *core.Ctx, opts kit.CtlOpts) *World {
 	simapi.SetNow(kit.T0)
 	s := simapi.NewStore()
 	w := &World{S: s, R: ctx.Rand, Ctx: ctx, Behav: map[string]*NodeBehaviour{}, Mode: "S", MaxTrace: 400, LastErr: map[string]string{}}
+	if v, err := strconv.Atoi(os.Getenv("VH_TRACE")); err == nil && v > 0 {
+		w.MaxTrace = v
+	}
 	w.Ctl = kit.NewControllers(s, opts)
 	w.User = s.NewClient("user", false)
 	w.Mon = NewMonitors(w)
@@ -73,9 +86,17 @@ func NewWorld(ctx *core.Ctx, opts kit.CtlOpts) *World {
 }
 
 func (w *World) tracef(format string, a ...any) {
-	if len(w.Trace) < w.MaxTrace {
-		w.Trace = append(w.Trace, fmt.Sprintf("t+%.1fs ", w.S.Now().Sub(kit.T0).Seconds())+fmt.Sprintf(format, a...))
+	if w.MaxTrace <= 0 {
+		return
 	}
+	if len(w.Trace) >= w.MaxTrace {
+		// keep the head (set-up) and the most recent part
+		keep := w.MaxTrace / 2
+		head := w.Trace[:30]
+		tail := w.Trace[len(w.Trace)-keep:]
+		w.Trace = append(append(append([]string{}, head...), "... (trace truncated) ..."), tail...)
+	}
+	w.Trace = append(w.Trace, fmt.Sprintf("t+%.1fs ", w.S.Now().Sub(kit.T0).Seconds())+fmt.Sprintf(format, a...))
 }
 
 // Now is the virtual instant.
@@ -479,4 +500,43 @@ func (w *World) Round(step time.Duration) (minRequeue time.Duration) {
 	w.KubeletStep()
 	w.KubeletStep()
 	return mr
+}
+
+// EnableNested installs the N-mode yield hook on the four controller clients: before an API
+// call of a reconcile, with probability p, one or two other actors act (environment step, user
+// action, clock step, or — to depth 1 — one complete reconcile of a different controller).
+func (w *World) EnableNested(p float64, act func(outer string)) {
+	w.NestedProb = p
+	w.nestedAct = act
+	for name, c := range map[string]*simapi.Client{"eds": w.Ctl.CEDS, "ers": w.Ctl.CERS, "setting": w.Ctl.CSet, "podtemplate": w.Ctl.CPT} {
+		name, c := name, c
+		c.Hook = func(phase string, call *simapi.Call) {
+			if phase != "pre" || w.Coop {
+				return
+			}
+			// calls issued by nested actors (depth 1) and by sibling goroutines of a fan-out while
+			// a nested action is running do not yield again
+			if !atomic.CompareAndSwapInt32(&w.nesting, 0, 1) {
+				return
+			}
+			defer atomic.StoreInt32(&w.nesting, 0)
+			w.hookMu.Lock()
+			defer w.hookMu.Unlock()
+			if w.R.Float64() >= w.NestedProb {
+				return
+			}
+			w.nestDepth++
+			if inv := c.Cur; inv != nil {
+				inv.Nested = true
+			}
+			w.tracef("  >> nested (inside %s reconcile, before %s %s)", name, call.Verb, call.Kind)
+			n := 1 + w.R.Intn(2)
+			for i := 0; i < n; i++ {
+				w.nestedAct(name)
+			}
+			w.tracef("  << end nested")
+			w.Ctx.Count("sim.nested-yields")
+			w.nestDepth--
+		}
+	}
 }
